@@ -15,9 +15,14 @@ EXPLANATION = ('Decided on the MIR, for symbolic tables and timestamps: (L) Time
                '(D) the switch instants: Jn is day n of the year without counting 29 February (year_doy_to_days skips the leap day exactly from n = 60 on '
                'in leap years), n is the zero-based day n+1, Mm.w.d is the w-th (5 = last) d-weekday of month m taken from weekdays_in_month, whose '
                'result is, for every month length 28..31, every weekday of the 1st (its day number 7q + r, q symbolic, through the real days_to_wday) and '
-               'every asked weekday, exactly the ascending list of the days of the month with that weekday (196 cases); the local instant is 86_400 * day + time of the rule. Not decided: the calendar kernels '
-               '(C01/C02), reading the year of the rule from the UTC timestamp (the property excludes switch-overs near 1 January), the byte-level '
-               'decoding of the file beyond C19, that the system file is the one read.')
+               'every asked weekday, exactly the ascending list of the days of the month with that weekday (196 cases); the local instant is 86_400 * day + time of the rule. (P) the reader itself (vf/tzparse.py), with the cursor and the integer reader replaced by recording contracts: parse_hms yields direction -1 exactly '
+               'after a minus sign and hour[:minute[:second]] in reading order, absent fields 0; parse_tz_string_offset(_extended) returns direction * (3600 h + 60 m + s) and '
+               'accepts every h in 0..=24 (-167..=167), m, s in 0..=59; parse_tz_string_rule builds Jn / n / Mm.w.d by the first byte, accepting all of the POSIX field '
+               'ranges 1..=365, 0..=365, 1..=12, 1..=5, 0..=6 in reading order, switch time 02:00:00 unless /time follows (extended grammar exactly for version 3); '
+               'from_tz_string gives utoff = -offset, an omitted daylight offset one hour ahead of standard time, first rule = end of standard time, second = end of '
+               'daylight time; Header::parse reads 4 + 1 + 15 bytes, maps the version byte NUL / 0x32 / 0x33 to versions 1 / 2 / 3 and stores the six counts in the RFC 8536 order; DataBlock::parse cuts timecnt*T, timecnt, typecnt*6, charcnt, '
+               'leapcnt*(T+4), isstdcnt, isutcnt bytes in this order (T = 4 or 8); from_tzif reads header + one 4-byte block and no footer for version 1, and header, skipped version-1 block, second header, 8-byte block and footer (extended grammar exactly for version 3) otherwise, one analysis per combination of header versions. Not decided: the calendar kernels '
+               '(C01/C02), reading the year of the rule from the UTC timestamp (the property excludes switch-overs near 1 January), that the system file is the one read.')
 META = {
     'technique': 'static analysis: MIR abstract interpretation of the lookup and rule evaluation on symbolic transition tables; decision tables from the ordering '
                  'facts of each result path against the RFC 8536 / POSIX TZ rule; call wiring and affine identities of the rule-day computation',
@@ -686,5 +691,7 @@ def check(ctx):
     leap_shift(ctx, facts)
     resolve_wiring(ctx, facts)
     decoding(ctx, facts)
+    from ..tzparse import check_parser
+    check_parser(ctx, facts)
     ctx.cov['entries'] += [LOOKUP, RULE_EVAL, RULE_TS]
     ctx.cov['trusted_base'] += ['rustc MIR of the dev profile', 'vf/models.py']
